@@ -1,15 +1,15 @@
-\* C17 quick: 3 goroutines x <= 2 operations over 2 ids, every interleaving of critical-section steps
+\* C17 quick: 3 goroutines (map writer / entry user / maintenance) x <= 2 operations over 2 ids,
+\* every interleaving of critical-section steps
 SPECIFICATION Spec
 CONSTANTS
-  Gor = {g1, g2, g3}
+  Gor = {"g1", "g2", "g3"}
   Nobody = Nobody
   Ids = {"i1", "i2"}
   MaxOps = 2
   MaxVer = 1
-  OpKinds = {"Store", "Lookup", "Invalidate", "Sweep", "Dump", "Renew"}
+  OpsOf <- RolesQuick
   InitKinds = {"live", "dead"}
   StoreExp = {"live"}
   Bug = {}
-SYMMETRY Symm
-INVARIANTS TypeOK LocksetDiscipline AccessRelationRespected NoTornExpiry NoLostInvalidate RefinesSeq Linearizable Progress
+INVARIANTS TypeOK LocksetDiscipline AccessRelationRespected NoTornExpiry NoLostInvalidate RefinesSeq Linearizable
 CHECK_DEADLOCK FALSE
